@@ -18,6 +18,7 @@ import (
 
 	erpc "github.com/henrylee2cn/erpc/v6"
 	"github.com/henrylee2cn/erpc/v6/codec"
+	"github.com/henrylee2cn/erpc/v6/plugin/binder"
 	"github.com/henrylee2cn/erpc/v6/proto/jsonproto"
 	"github.com/henrylee2cn/erpc/v6/proto/pbproto"
 	"github.com/henrylee2cn/erpc/v6/utils"
@@ -106,11 +107,15 @@ func (v *view) String() string {
 
 // seenRec is one handler invocation at an endpoint.
 type seenRec struct {
-	mtype byte
-	v1    view
-	v2    *view  // the same fields read again later (after the park / after the reply was written)
-	vMid  *view  // read again through the ctx inside the handler, after the overlap yield (CopyMeta)
-	peeks string // anything PeekMeta returned after the yield that is not this request's own value
+	mtype    byte
+	v1       view
+	v2       *view       // the same fields read again later (after the park / after the reply was written)
+	vMid     *view       // read again through the ctx inside the handler, after the overlap yield (CopyMeta)
+	peeks    string      // anything PeekMeta returned after the yield that is not this request's own value
+	bound    func() []kv // argument fields the binder plugin filled from the metadata (binder route only)
+	bound1   []kv        // ... as the handler found them on entry (deep copy)
+	boundMid []kv        // ... after the overlap yield
+	bound2   []kv        // ... after the reply was written (after any park)
 }
 
 // ---- endpoints ----
@@ -166,7 +171,8 @@ type world struct {
 	eps                  [2][2]*endpoint
 	bySess               map[erpc.CtxSession]*endpoint
 	callPaths, pushPaths [2]string // [0] function handler, [1] struct controller method
-	arrivals             [8]int64  // invocations per handler route, for the overlap yield
+	binderPath           string    // CALL route whose argument struct is filled by plugin/binder ("" = not used)
+	arrivals             [10]int64 // invocations per handler route, for the overlap yield
 	workers              []*worker
 	stallRng             [2]*rand.Rand
 	schedRng             *rand.Rand
@@ -218,8 +224,8 @@ func newWorld(cfg *RunCfg, st *Stats, cw *CaseWriter, gz *GzipRecorder, ci int, 
 	}
 	hsWorld.Store(w) // the handshake plugin runs while the sessions are being built
 	w.pf = pf
-	w.srv = erpc.NewPeer(erpc.PeerConfig{DefaultBodyCodec: "plain"}, viewPlugin{}, hsPlugin{})
-	w.cli = erpc.NewPeer(erpc.PeerConfig{DefaultBodyCodec: "plain"}, viewPlugin{}, hsPlugin{})
+	w.srv = erpc.NewPeer(erpc.PeerConfig{DefaultBodyCodec: "plain"}, viewPlugin{}, hsPlugin{}, binder.NewStructArgsBinder(nil))
+	w.cli = erpc.NewPeer(erpc.PeerConfig{DefaultBodyCodec: "plain"}, viewPlugin{}, hsPlugin{}, binder.NewStructArgsBinder(nil))
 	// every handler exists twice: as a function (RouteCallFunc / RoutePushFunc) and as a method
 	// of a struct controller that embeds the context (RouteCall / RoutePush); the controller
 	// object is pooled per method by the router
@@ -231,6 +237,12 @@ func newWorld(cfg *RunCfg, st *Stats, cw *CaseWriter, gz *GzipRecorder, ci int, 
 		pb = p.RoutePushFunc(PB)
 		ps = p.RoutePushFunc(PS)
 		ctlCall = p.RouteCall(new(Ctl))
+		bh := p.RouteCallFunc(BH)
+		if spec.proto != "raw" {
+			// the correspondence model's handler does not model this route: raw configurations
+			// (the only ones that produce case lines) do not use it
+			w.binderPath = bh
+		}
 		ctlPush = p.RoutePush(new(PCtl))
 	}
 	pick := func(paths []string, method string) string {
@@ -509,9 +521,16 @@ func midView(rec *seenRec, ctx inCtx, copyMeta func() *utils.Args, peekMeta func
 // callCommon is the body of every CALL handler. get() yields the handler's context each
 // time it is used: for a struct controller that is the embedded field, read afresh.
 func callCommon(route int, get func() erpc.CallCtx, arg func() []byte) *erpc.Status {
+	return callCommonB(route, get, arg, nil)
+}
+
+func callCommonB(route int, get func() erpc.CallCtx, arg func() []byte, bound func() []kv) *erpc.Status {
 	w, rec := onHandle(get(), 1, arg())
 	if rec == nil {
 		return nil
+	}
+	if bound != nil {
+		rec.bound, rec.bound1 = bound, bound()
 	}
 	// reply metadata written BEFORE the yield, from what this handler saw on entry
 	get().SetMeta("rtag", string(peek(rec.v1.meta, "tag")))
@@ -520,6 +539,9 @@ func callCommon(route int, get func() erpc.CallCtx, arg func() []byte) *erpc.Sta
 	// ... and AFTER the yield, from what the context says now
 	c := get()
 	midView(rec, c, c.CopyMeta, c.PeekMeta, arg())
+	if bound != nil {
+		rec.boundMid = bound()
+	}
 	c.SetMeta("r0", string(reOf(c.PeekMeta("t0"))))
 	if len(c.PeekMeta("refuse")) > 0 {
 		// the handler REFUSES this call: error status, no result
@@ -542,6 +564,26 @@ func CS(ctx erpc.CallCtx, arg *string) (string, *erpc.Status) {
 		return "", st
 	}
 	return string(reOf([]byte(*arg))), nil
+}
+
+// BArg is the argument of the binder route: Tag and T0 are filled by plugin/binder from the
+// request metadata (string fields bound from metadata are views into the metadata copy the
+// plugin took), A is the body.
+type BArg struct {
+	Tag string `param:"<meta:tag>"`
+	T0  string `param:"<meta:t0>"`
+	A   string
+}
+
+// BH is the CALL handler of the binder route.
+func BH(ctx erpc.CallCtx, arg *BArg) (string, *erpc.Status) {
+	bound := func() []kv { // deep copies: the strings may alias pooled memory
+		return []kv{{[]byte("tag"), append([]byte(nil), arg.Tag...)}, {[]byte("t0"), append([]byte(nil), arg.T0...)}}
+	}
+	if st := callCommonB(8, func() erpc.CallCtx { return ctx }, func() []byte { return []byte(arg.A) }, bound); st != nil {
+		return "", st
+	}
+	return string(reOf([]byte(arg.A))), nil
 }
 
 // Ctl is the struct controller with the same two CALL handlers as methods; the router hands
@@ -630,9 +672,16 @@ func (viewPlugin) PostWriteReply(wctx erpc.WriteCtx) *erpc.Status {
 		if b != nil {
 			arg = []byte(*b)
 		}
+	case *BArg:
+		if b != nil {
+			arg = []byte(b.A)
+		}
 	}
 	v2 := takeView(rc, arg)
 	rec.v2 = &v2
+	if rec.bound != nil {
+		rec.bound2 = rec.bound()
+	}
 	atomic.AddInt64(&w.handlersOut, 1)
 	return nil
 }
@@ -646,6 +695,7 @@ type worker struct {
 	next int    // index of the next operation of this goroutine
 	resB []byte // reused result variables of the goroutine's synchronous calls
 	resS string
+	resJ string
 }
 
 type pendingAsync struct {
@@ -678,12 +728,18 @@ func (wk *worker) runEpoch(nops int) {
 		op.args, op.meta = w.expected(tag)
 		op.refuse = w.refused(tag) && !isPush(op.kind)
 		via := int(w.hash(tag, "#route") % 2) // function handler or struct controller
+		viaBinder := w.binderPath != "" && !isPush(op.kind) && w.hash(tag, "#binder")%3 == 0
 		if isPush(op.kind) {
 			op.path = w.pushPaths[via]
 		} else {
 			op.path = w.callPaths[via]
 		}
-		w.count([]string{"route:func", "route:struct"}[via])
+		if viaBinder {
+			op.path = w.binderPath
+			w.count("route:binder")
+		} else {
+			w.count([]string{"route:func", "route:struct"}[via])
+		}
 		settings := make([]erpc.MessageSetting, 0, 6)
 		settings = append(settings, erpc.WithBodyCodec(w.codec))
 		for _, p := range op.meta {
@@ -706,6 +762,15 @@ func (wk *worker) runEpoch(nops int) {
 				res = &wk.resB
 			} else {
 				res = &wk.resS
+			}
+		}
+		if viaBinder {
+			// struct argument through the JSON codec, whatever the body kind of the configuration
+			settings = append(settings, erpc.WithBodyCodec('j'))
+			op.sent = nil
+			argVal, res = &BArg{A: string(op.args)}, new(string)
+			if op.kind == kCall {
+				res = &wk.resJ
 			}
 		}
 		// registered before anything is sent: the receiver may run first
